@@ -2,12 +2,14 @@ module verif
 
 go 1.20
 
-require github.com/networkteam/qrb v0.0.0
+require (
+	github.com/jackc/pgx/v5 v5.6.0
+	github.com/networkteam/qrb v0.0.0
+)
 
 require (
 	github.com/jackc/pgpassfile v1.0.0 // indirect
 	github.com/jackc/pgservicefile v0.0.0-20240606120523-5a60cdf6a761 // indirect
-	github.com/jackc/pgx/v5 v5.6.0 // indirect
 	golang.org/x/crypto v0.24.0 // indirect
 	golang.org/x/text v0.16.0 // indirect
 )
